@@ -33,3 +33,173 @@ pub fn inner_handles(e: &lipe_find_parser::ast::Expression, out: &mut Vec<lipe_f
 pub fn inner_handles(_e: &lipe_find_parser::ast::Expression, _out: &mut Vec<lipe_find_parser::ast::Expression>) {}
 
 pub const ENABLED: bool = cfg!(feature = "astwalk");
+
+pub const KNOWN_TESTS: [&str; 38] = [
+    "AccessTime", "ChangeTime", "Empty", "Executable", "False", "GroupId", "InodeNumber", "InsensitiveName", "InsensitivePath",
+    "Links", "MirrorCount", "ModifyTime", "Name", "Path", "Perm", "Pool", "Readable", "Size", "StripeCount", "True", "Type",
+    "UserId", "Writable", "Xattr", "XattrMatch", "AccessNewer", "ChangeNewer", "FsType", "Group", "InsensitiveLinkName",
+    "InsensitiveRegex", "LinkName", "ModifyNewer", "NoGroup", "NoUser", "Regex", "Samefile", "User",
+];
+
+/// (time tests, hashed resources, tree contains a test kind unknown to this harness), read off the
+/// tree itself.
+#[cfg(feature = "astwalk")]
+pub fn tree_facts3(e: &lipe_find_parser::ast::Expression) -> (usize, usize, bool) {
+    use lipe_find_parser::ast::{Action, Expression, Operator, Test};
+    fn walk(e: &Expression, time: &mut usize, res: &mut std::collections::BTreeSet<String>) {
+        match e {
+            Expression::Operator(op) => {
+                #[allow(unreachable_patterns)]
+                match op.as_ref() {
+                    Operator::Precedence(a) | Operator::Not(a) => walk(a, time, res),
+                    Operator::And(a, b) | Operator::Or(a, b) | Operator::List(a, b) => {
+                        walk(a, time, res);
+                        walk(b, time, res);
+                    }
+                    _ => {
+                        res.insert("unknown-test-kind".into());
+                    }
+                }
+            }
+            Expression::Test(t) => match t {
+                Test::AccessTime(_) | Test::ChangeTime(_) | Test::ModifyTime(_) => *time += 1,
+                // a test kind this harness does not know (added after the pinned tree): it may or
+                // may not be a time test; reported through the resource set
+                other if !KNOWN_TESTS.contains(&format!("{other:?}").split(|c: char| !c.is_alphanumeric()).next().unwrap_or("")) => {
+                    res.insert("unknown-test-kind".into());
+                }
+                Test::Name(s) | Test::Path(s) => {
+                    res.insert(format!("m:{s}"));
+                }
+                Test::InsensitiveName(s) | Test::InsensitivePath(s) => {
+                    res.insert(format!("i:{s}"));
+                }
+                _ => {}
+            },
+            Expression::Action(a) => match a {
+                Action::Quit | Action::PrintFid => {}
+                #[allow(deprecated)]
+                Action::DefaultPrint => {}
+                other => {
+                    let d = format!("{other:?}");
+                    // printers are keyed by destination and terminator, not by format
+                    let key = d.split('[').next().unwrap_or(&d).to_string();
+                    res.insert(format!("a:{key}"));
+                }
+            },
+            _ => {}
+        }
+    }
+    let mut time = 0;
+    let mut res = std::collections::BTreeSet::new();
+    walk(e, &mut time, &mut res);
+    let unknown = res.remove("unknown-test-kind");
+    (time, res.len(), unknown)
+}
+
+/// Without the walk: the same facts from the tree's `Debug` text.
+#[cfg(not(feature = "astwalk"))]
+pub fn tree_facts3(e: &lipe_find_parser::ast::Expression) -> (usize, usize, bool) {
+    facts_from_dump(&format!("{e:?}"))
+}
+
+/// The facts of `tree_facts3` from the `Debug` text of a tree: identifiers outside string and
+/// character literals; `Test(Kind...`, `Action(Kind...`. Used when the walk over the tree does not
+/// build (the tree changed shape); the self-check compares both on the pinned tree.
+pub fn facts_from_dump(dump: &str) -> (usize, usize, bool) {
+    #[derive(Debug, PartialEq, Clone)]
+    enum Tok {
+        Ident(String),
+        Str(String),
+        Punct(char),
+    }
+    let cs: Vec<char> = dump.chars().collect();
+    let mut toks = vec![];
+    let mut i = 0;
+    while i < cs.len() {
+        let c = cs[i];
+        if c == '"' {
+            let mut s = String::new();
+            i += 1;
+            while i < cs.len() && cs[i] != '"' {
+                if cs[i] == '\\' && i + 1 < cs.len() {
+                    s.push(cs[i]);
+                    i += 1;
+                }
+                s.push(cs[i]);
+                i += 1;
+            }
+            i += 1;
+            toks.push(Tok::Str(s));
+        } else if c == '\'' {
+            // a character literal: 'x', '\n', '\'', '\u{1f600}'
+            i += 1;
+            if i < cs.len() && cs[i] == '\\' {
+                i += 2;
+                while i < cs.len() && cs[i] != '\'' {
+                    i += 1;
+                }
+            } else {
+                i += 1;
+            }
+            i += 1;
+            toks.push(Tok::Punct('\''));
+        } else if c.is_alphabetic() || c == '_' {
+            let mut s = String::new();
+            while i < cs.len() && (cs[i].is_alphanumeric() || cs[i] == '_') {
+                s.push(cs[i]);
+                i += 1;
+            }
+            toks.push(Tok::Ident(s));
+        } else {
+            if !c.is_whitespace() {
+                toks.push(Tok::Punct(c));
+            }
+            i += 1;
+        }
+    }
+    let mut time = 0;
+    let mut unknown = false;
+    let mut res = std::collections::BTreeSet::new();
+    let mut k = 0;
+    while k + 2 < toks.len() {
+        if let (Tok::Ident(head), Tok::Punct('('), Tok::Ident(kind)) = (&toks[k], &toks[k + 1], &toks[k + 2]) {
+            if head == "Test" {
+                match kind.as_str() {
+                    "AccessTime" | "ChangeTime" | "ModifyTime" => time += 1,
+                    other if !KNOWN_TESTS.contains(&other) => unknown = true,
+                    "Name" | "Path" | "InsensitiveName" | "InsensitivePath" => {
+                        if let Some(Tok::Str(s)) = toks.get(k + 4) {
+                            res.insert(format!("{}:{s}", if kind.starts_with("Insensitive") { "i" } else { "m" }));
+                        }
+                    }
+                    _ => {}
+                }
+            } else if head == "Action" && !matches!(kind.as_str(), "Quit" | "PrintFid" | "DefaultPrint") {
+                // printers are keyed by destination and terminator, not by format: the text up to
+                // the first '[' or the closing parenthesis
+                let mut key = kind.clone();
+                let (mut depth, mut m) = (0i32, k + 3);
+                while m < toks.len() {
+                    match &toks[m] {
+                        Tok::Punct('[') => break,
+                        Tok::Punct('(') => depth += 1,
+                        Tok::Punct(')') => {
+                            depth -= 1;
+                            if depth < 0 {
+                                break;
+                            }
+                        }
+                        Tok::Str(s) => key.push_str(&format!("\"{s}\"")),
+                        Tok::Ident(s) => key.push_str(s),
+                        _ => {}
+                    }
+                    m += 1;
+                }
+                res.insert(format!("a:{key}"));
+            }
+        }
+        k += 1;
+    }
+    (time, res.len(), unknown)
+}
